@@ -7,6 +7,8 @@ pub(crate) mod stronghold_key_type;
 #[cfg(test)]
 mod tests;
 pub(crate) mod utils;
+#[cfg(identity_rs_verif)]
+pub mod verif_hooks;
 
 pub use storage::*;
 pub use stronghold_key_type::*;
